@@ -5,6 +5,7 @@ pub mod c01;
 pub mod c02;
 pub mod c03;
 pub mod c04;
+pub mod c05;
 pub mod c07;
 pub mod c08;
 pub mod c09;
@@ -22,6 +23,7 @@ pub fn run(id: &str, rep: &mut Report) -> bool {
         "C02" => c02::run(rep),
         "C03" => c03::run(rep),
         "C04" => c04::run(rep),
+        "C05" => c05::run(rep),
         "C07" => c07::run(rep),
         "C08" => c08::run(rep),
         "C09" => c09::run(rep),
@@ -44,6 +46,7 @@ pub fn replay(id: &str, v: &Value) -> i32 {
         "C02" => c02::replay(w),
         "C03" => c03::replay(w),
         "C04" => c04::replay(w),
+        "C05" => c05::replay(w),
         "C07" => c07::replay(w),
         "C08" => c08::replay(w),
         "C09" => c09::replay(w),
